@@ -1,5 +1,7 @@
 import JobShopProofs.EnvReward
 import JobShopProofs.Properties.C05
+import JobShopProofs.Properties.C02
+import JobShopProofs.Properties.C06
 /-!
 # Observers are transparent to the dispatcher
 
@@ -96,6 +98,35 @@ theorem C10_observers_do_not_disturb (c : Cfg) (evs evs' : List FEv)
     (h : evs.filterMap FEv.toEv? = evs'.filterMap FEv.toEv?) :
     (FWorld.run c evs).s = (FWorld.run c evs').s := by
   rw [(observers_transparent c evs).2, (observers_transparent c evs').2, h]
+
+/-- C01 with observers attached: the schedule of every feature world is feasible -/
+theorem C01_world_feasible (c : Cfg) (hv : Valid c.I) (evs : List FEv) : Feasible c.I (FWorld.run c evs).s.sched := by
+  rw [(observers_transparent c evs).2]
+  exact C01_feasible c hv _
+
+/-- C02 with observers attached: the tracking vectors are what the schedule implies, whatever the observers did -/
+theorem C02_world_tracking (c : Cfg) (hv : Valid c.I) (evs : List FEv) :
+    let s := (FWorld.run c evs).s
+    (∀ m, s.machNext.getD m 0 = lastEndOn s.sched m) ∧
+    (∀ j, s.jobIdx.getD j 0 = (s.sched.flatten.filter fun x => x.job == j).length) ∧
+    (∀ j, s.jobNext.getD j 0 = predEnd s.sched j (s.jobIdx.getD j 0)) ∧
+    numScheduled s = s.sched.flatten.length := by
+  intro s
+  have h : s = run c (evs.filterMap FEv.toEv?) := (observers_transparent c evs).2
+  obtain ⟨h1, h2, h3, h4, _⟩ := C02_tracking c hv (evs.filterMap FEv.toEv?)
+  rw [h]
+  exact ⟨h1, h2, h3, h4⟩
+
+/-- C06 with observers attached: the clock of a feature world never goes back over a dispatch request -/
+theorem C06_world_now_mono (c : Cfg) (hv : Valid c.I) (hF : c.F = none ∨ PosDurI c.I) (evs : List FEv)
+    (j p : Nat) (m : Option Int) :
+    currentTimePure c (FWorld.run c evs).s ≤ currentTimePure c (FWorld.run c (evs ++ [.disp j p m])).s := by
+  have h1 := (observers_transparent c evs).2
+  have h2 := (observers_transparent c (evs ++ [FEv.disp j p m])).2
+  have : (evs ++ [FEv.disp j p m]).filterMap FEv.toEv? = evs.filterMap FEv.toEv? ++ [Ev.disp j p m] := by
+    simp [List.filterMap_append, FEv.toEv?]
+  rw [h1, h2, this]
+  exact C06_now_mono c hv hF _ j p m
 
 /-! non-vacuity: observers of every family created before, between and after dispatches and a reset -/
 example :
